@@ -1010,7 +1010,7 @@ func (sm *Sim) DrainShown(sorted bool, pairs bool) string {
 	return strings.Join(s, ",")
 }
 
-// Exhaustive enumerates every history of exactly `depth` letters over a 17-letter alphabet (frames of two
+// Exhaustive enumerates every history of exactly `depth` letters over a 19-letter alphabet (frames of two
 // clients on two LAN addresses incl. a collision, ARP, IPv6 LLA, router GUA, a DHCP frame without host,
 // DHCPv4Update, two purge distances, Notify, Capture, SetOffer, a name update). Virtual time advances by one
 // second per letter; the purge letters jump past the offline / purge deadline.
@@ -1032,6 +1032,7 @@ func Exhaustive(u Universe, depth int, discipline bool, f func(ops []string)) {
 		rx(c1, "4", ipA, nil, 0), rx(c1, "4", ipB, nil, 1), rx(c2, "4", ipA, nil, 2), rx(c1, "a", ipA, c1, 0),
 		rx(c1, "6", u.IP6s[0], nil, 0), rx(rt, "6", u.IP6s[2], nil, 2), rx(c1, "4", u.IP4s[6], nil, 3),
 		rx(c2, "4", ipB, nil, 0), rx(c1, "4", ipC, nil, 0),
+		rx(c1, "a", ipC, u.MACs[0], 1), rx(u.MACs[0], "a", ipC, c1, 1), // exactly one of Ethernet source / ARP sender is our own MAC
 		func(now *int64) []string { *now++; return []string{fmt.Sprintf("U,%s,%s,2,%d", MacTok(c2), IPTok(ipA), *now)} },
 		func(now *int64) []string { *now++; return []string{fmt.Sprintf("U,%s,%s,1,%d", MacTok(c1), IPTok(ipB), *now)} },
 		func(now *int64) []string { *now += 301; return []string{fmt.Sprintf("P,%d", *now)} },
@@ -1101,11 +1102,16 @@ func (g *Gen) ConflictHistory(n int) []string {
 		case r < 40:
 			frame(RxTok(m, "4", ip4[g.Rng.Intn(len(ip4))], nil, g.Rng.Pick(0, 1, 2, 3), step()))
 		case r < 52:
-			am := m
-			if g.Rng.Chance(25) {
+			am, es := m, m
+			switch g.Rng.Intn(8) {
+			case 0, 1:
 				am = macs[g.Rng.Intn(len(macs))]
+			case 2:
+				am = u.MACs[0] // ARP sender hardware address = our own MAC, Ethernet source a client
+			case 3:
+				es = u.MACs[0] // Ethernet source = our own MAC, ARP sender a client
 			}
-			frame(RxTok(m, "a", ip4[g.Rng.Intn(len(ip4))], am, g.Rng.Intn(2), step()))
+			frame(RxTok(es, "a", ip4[g.Rng.Intn(len(ip4))], am, g.Rng.Intn(2), step()))
 		case r < 64:
 			frame(RxTok(m, "6", lla[g.Rng.Intn(len(lla))], nil, g.Rng.Pick(0, 2), step()))
 		case r < 76:
@@ -1302,4 +1308,97 @@ func RawOps(ops []string, rng *lib.Rand, damage int, stat func(string)) []string
 		out[i] = "B," + lib.Hex(frame) + "," + f[6]
 	}
 	return out
+}
+
+
+// DHCPExchangeHistory: the DHCP name path. A client is online and announced on X (optionally with a DHCP name
+// already learned and notified); then one or more DHCP exchanges as the DHCP server drives them:
+// SetDHCPv4IPOffer(mac, offer, name) on DISCOVER (offer = the current address or another one; name the same,
+// a changed or an empty one), DHCPv4Update(mac, ip, name) on REQUEST (ip = offer, current address or a third),
+// followed by Notify through the DHCP path (frame without host, classified DHCPv4) and/or through the normal
+// path (a frame from the host), interleaved with purges, name updates from other sources and a second MAC.
+func (g *Gen) DHCPExchangeHistory() []string {
+	g.now = 0
+	u := g.U
+	m := u.MACs[2+g.Rng.Intn(3)]
+	other := u.MACs[2+(g.Rng.Intn(2)+1+indexOfMAC(u.MACs, m)-2)%3]
+	ip4 := []netip.Addr{u.IP4s[2], u.IP4s[3], u.IP4s[4]}
+	x := ip4[g.Rng.Intn(3)]
+	t := func(d int64) int64 { g.now += d; return g.now }
+	name := func() string { return u.Names[g.Rng.Intn(len(u.Names))] }
+	dhcpFrame := func() []string { return []string{RxTok(m, "4", u.IP4s[6], nil, 3, t(1)), "N"} }
+	hostFrame := func(ip netip.Addr) []string { return []string{RxTok(m, "4", ip, nil, g.Rng.Pick(0, 1, 2), t(1)), "N"} }
+	var ops []string
+	// online and announced on X, possibly with a name already learned and delivered
+	ops = append(ops, hostFrame(x)...)
+	cur := x
+	if g.Rng.Chance(60) {
+		ops = append(ops, fmt.Sprintf("U,%s,%s,%s,%d", MacTok(m), IPTok(x), name(), t(1)))
+		if g.Rng.Chance(50) {
+			ops = append(ops, dhcpFrame()...)
+		} else {
+			ops = append(ops, hostFrame(x)...)
+		}
+	}
+	for i := 0; i < 1+g.Rng.Intn(3); i++ {
+		n1 := name()
+		n2 := n1
+		if g.Rng.Chance(25) {
+			n2 = name()
+		}
+		offer := cur
+		if g.Rng.Chance(35) {
+			offer = ip4[g.Rng.Intn(3)]
+		}
+		req := offer
+		if g.Rng.Chance(20) {
+			req = ip4[g.Rng.Intn(3)]
+		}
+		steps := g.Rng.Pick(0, 0, 0, 1, 2) // 0: offer+update, 1: offer only, 2: update only
+		if steps != 2 {
+			ops = append(ops, fmt.Sprintf("O,%s,%s,%s", MacTok(m), IPTok(offer), n1))
+		}
+		if g.Rng.Chance(30) {
+			ops = append(ops, dhcpFrame()...) // the DISCOVER/REQUEST frame itself, before the update
+		}
+		if steps != 1 {
+			ops = append(ops, fmt.Sprintf("U,%s,%s,%s,%d", MacTok(m), IPTok(req), n2, t(1)))
+			cur = req
+		}
+		switch g.Rng.Intn(4) {
+		case 0:
+			ops = append(ops, dhcpFrame()...)
+		case 1:
+			ops = append(ops, hostFrame(cur)...)
+		case 2:
+			ops = append(ops, dhcpFrame()...)
+			ops = append(ops, hostFrame(cur)...)
+		case 3:
+			ops = append(ops, hostFrame(cur)...)
+			ops = append(ops, dhcpFrame()...)
+		}
+		switch g.Rng.Intn(6) {
+		case 0:
+			ops = append(ops, fmt.Sprintf("P,%d", t(int64(g.Rng.Pick(100, 301)))))
+		case 1:
+			ops = append(ops, fmt.Sprintf("M,%d,%s,%s", g.Rng.Intn(5), IPTok(cur), name()))
+		case 2:
+			ops = append(ops, RxTok(other, "4", ip4[g.Rng.Intn(3)], nil, 0, t(1)), "N")
+		case 3:
+			ops = append(ops, fmt.Sprintf("P,%d", t(3661)))
+		}
+	}
+	if g.Rng.Chance(50) {
+		ops = append(ops, hostFrame(cur)...) // repeat traffic at the end: must be quiet if nothing is owed
+	}
+	return ops
+}
+
+func indexOfMAC(l []net.HardwareAddr, m net.HardwareAddr) int {
+	for i, x := range l {
+		if bytes.Equal(x, m) {
+			return i
+		}
+	}
+	return 0
 }
